@@ -352,7 +352,7 @@ class C15(Check):
         rundir = os.path.join(vf.BUILD, self.id, 'run')
         res, crashes, i, weight, size = [], {}, 0, 0, 30
         while i < len(cases):
-            if weight >= 150 or getattr(self, '_crash_weight', 0) >= 300:
+            if not tag.startswith('shr_') and (weight >= 150 or getattr(self, '_crash_weight', 0) >= 300):      # shr_: re-run of a reported case
                 vf.log('[C15] %s: too many crashes / hangs (weight %d, all streams %d): remaining %d cases not run' % (
                     tag, weight, getattr(self, '_crash_weight', 0), len(cases) - i))
                 res += [['! notrun'] for _ in cases[i:]]
@@ -371,7 +371,8 @@ class C15(Check):
                 crashes[i + k] = v
             w = sum(30 if v[0] == 'timeout' else 1 for v in c.values())
             weight += w
-            self._crash_weight = getattr(self, '_crash_weight', 0) + w
+            if not tag.startswith('shr_'):
+                self._crash_weight = getattr(self, '_crash_weight', 0) + w
             i += len(chunk)
             size = 300 if (w > 3 or weight > 20) else 20000
         return res, crashes
@@ -529,7 +530,7 @@ class C15(Check):
             if c and c[0].split(' ')[0] in ('rt', 'rtinto', 'rtx'):
                 s, o = [self._int_blind(l) for l in s], [l if l.startswith('! ') else self._int_blind(l) for l in o]
             crash = [j for j, l in enumerate(o) if l.startswith('! ')]
-            if o == ['! not-run']:
+            if o in (['! not-run'], ['! notrun']):
                 continue
             if crash:
                 j = crash[0]
